@@ -39,8 +39,13 @@ impl<'a> PairFn for Complete<'a> {
         let (cols, vals, pubs) = build_statement::<B>(st);
         // the computation description must be accepted by the AIR constructors (supported class)
         let info = starkit::SpecTrace::<B>::new(&st.spec, &cols, st.meta.clone()).info;
-        if kit::pan::catch(|| <starkit::SpecAir<B> as air::Air>::new(info.clone(), pubs.clone(), st.opts.to_options())).is_err() {
-            return Res::Filtered("computation description refused by the AIR context constructor");
+        if let Err(pr) = kit::pan::catch(|| <starkit::SpecAir<B> as air::Air>::new(info.clone(), pubs.clone(), st.opts.to_options())) {
+            // the one documented refusal left after the admissibility filter: too many exemptions for the degree
+            // budget - decided by a predicate written from the documentation, not by the constructor's own verdict
+            if st.spec.exemptions_exceed_degree_budget() {
+                return Res::Filtered("exemptions exceed the degree budget of the constraint evaluation domain (documented refusal)");
+            }
+            return Res::Violation(format!("a supported computation description is refused by the AIR constructor ({})", pr.class()), pr.msg);
         }
         if let Err(e) = main_valid::<B>(&st.spec, &cols, &vals) {
             return Res::Harness(format!("generated trace is not valid: {e}"));
